@@ -16,9 +16,10 @@ cat /repo/go.sum harness/go.sum.extra 2>/dev/null | sort -u > harness/go.sum
 export VERIF_BIN_DIR=$B/bin VERIF_RACE_BIN_DIR=$B/bin VERIF_EVIDENCE_DIR=$B/evidence GOCOVERDIR=$B/cov VERIF_TIER=quick VERIF_SEED=${VERIF_SEED:-1}
 for ID in $IDS; do
   id=$(echo $ID | tr A-Z a-z)
-  (cd harness && go build -cover -coverpkg=$PKG -tags verif -o $B/h/$id ./cmd/$id) || { echo "$ID build failed"; continue; }
+  (cd harness && go build -cover -coverpkg=$PKG,verif/harness/... -tags verif -o $B/h/$id ./cmd/$id) || { echo "$ID build failed"; continue; }
   $B/h/$id 2>/dev/null | tail -1
 done
-go tool covdata textfmt -i=$B/cov -o $B/profile.txt
+go tool covdata textfmt -i=$B/cov -o $B/profile.all.txt
+(head -1 $B/profile.all.txt; grep "^github.com/git-lfs/git-lfs/v3/" $B/profile.all.txt) > $B/profile.txt
 (cd /repo && go tool cover -func=$B/profile.txt > $B/func.txt)
 tail -1 $B/func.txt
